@@ -41,26 +41,33 @@ type arities struct {
 // every component runs through its own domain (shifted by the position, so neighbouring
 // components never move in step).
 func arityInst[T any](head string, n int, m fp.Monoid[T], mk func(c []any) T, split func(any) []any, open, sep, close string, kids ...*node) *inst[T] {
-	var dom []any
-	for j := 0; j < domCap; j++ {
-		c := make([]any, n)
-		for k := range c {
-			d := kids[k].dom
-			c[k] = d[(j+k)%len(d)]
+	mkDom := func() []any {
+		var dom []any
+		doms := make([][]any, n)
+		for k := range doms {
+			doms[k] = kids[k].mk() // fresh storage for every component
 		}
-		dom = append(dom, mk(c))
+		for j := 0; j < domCap; j++ {
+			c := make([]any, n)
+			for k := range c {
+				d := doms[k]
+				c[k] = d[(j+k)%len(d)]
+			}
+			dom = append(dom, mk(c))
+		}
+		return dom
 	}
-	nd := &node{name: "monoid." + head, pkg: "monoid", head: "monoid." + head, depth: 2, kids: kids, dom: dom, eqv: prodEq(kids, split), show: prodShow(kids, split, open, sep, close)}
+	nd := &node{name: "monoid." + head, pkg: "monoid", head: "monoid." + head, depth: 2, kids: kids, dom: mkDom(), mk: mkDom, eqv: prodEq(kids, split), show: prodShow(kids, split, open, sep, close)}
 	return finishM(nd, m)
 }
 
 func buildCatalogue() (grammar *catalogue, extra *catalogue, ar *arities) {
 	unitEq := func(a, b any) bool { return true }
-	hn := finishM(newNode("monoid", "HNil", anys([]hlist.Nil{{}}), unitEq, func(any) string { return "HNil" }), monoid.HNil)
+	hn := finishM(newNode("monoid", "HNil", fixed([]hlist.Nil{{}}), unitEq, func(any) string { return "HNil" }), monoid.HNil)
 	grammar = &catalogue{hnil: hn}
 	extra = &catalogue{hnil: hn}
 
-	mString := finishM(newNode("monoid", "String", anys(strDom), eqComparable[string], showV), monoid.String)
+	mString := finishM(newNode("monoid", "String", fixed(strDom), eqComparable[string], showV), monoid.String)
 	mSumInt := finishM(sumNode("monoid", "int", intDom), monoid.Sum[int]())
 	mSumStr := finishM(sumNode("monoid", "string", strDom), monoid.Sum[string]())
 	mProdInt := finishM(productNode("monoid", "int", intDom), monoid.Product[int]())
@@ -80,12 +87,15 @@ func buildCatalogue() (grammar *catalogue, extra *catalogue, ar *arities) {
 	expand1(grammar, mAll)
 	expand1(grammar, mEndo)
 	expand1(grammar, mSeq)
+	// the slice-like carriers (domains with spare-capacity sub-slices of a live array, see
+	// freshIntSeqs) under every combinator
+	mSlice := mergeSliceI()
+	expand1(grammar, mSlice)
 
 	add := func(n *node) { extra.add(n) }
 	add(hn.n)
 	add(mSumStr.n)
-	add(finishM(newNode("monoid", "Unit", anys([]fp.Unit{{}}), unitEq, func(any) string { return "Unit" }), monoid.Unit).n)
-	add(mergeSliceI().n)
+	add(finishM(newNode("monoid", "Unit", fixed([]fp.Unit{{}}), unitEq, func(any) string { return "Unit" }), monoid.Unit).n)
 	add(mergeGoMapI().n)
 	add(mergeMapI().n)
 	add(mergeSetI().n)
@@ -100,7 +110,7 @@ func buildCatalogue() (grammar *catalogue, extra *catalogue, ar *arities) {
 	add(finishM(productNode("fp", "int", intDom), fp.Product[int]()).n)
 	add(finishM(productNode("fp", "float64", fltDom), fp.Product[float64]()).n)
 	// user-supplied functions through monoid.New
-	add(finishM(newNode("monoid", "New[max]", anys([]int{0, 1, 2, 5}), eqComparable[int], showV), monoid.New(func() int { return 0 }, func(a, b int) int { return max(a, b) })).n)
+	add(finishM(newNode("monoid", "New[max]", fixed([]int{0, 1, 2, 5}), eqComparable[int], showV), monoid.New(func() int { return 0 }, func(a, b int) int { return max(a, b) })).n)
 
 	// the semigroup package
 	sSumInt := finishS(sumNode("semigroup", "int", intDom), semigroup.Sum[int]())
@@ -119,7 +129,7 @@ func buildCatalogue() (grammar *catalogue, extra *catalogue, ar *arities) {
 	sgExpand1(extra, sAll)
 	sgExpand1(extra, sEndo)
 	add(finishS(productNode("semigroup", "float64", fltDom), semigroup.Product[float64](0, 0)).n)
-	add(finishS(newNode("semigroup", "New[min]", anys([]int{0, 1, 2, 5}), eqComparable[int], showV), semigroup.New(func(a, b int) int { return min(a, b) })).n)
+	add(finishS(newNode("semigroup", "New[min]", fixed([]int{0, 1, 2, 5}), eqComparable[int], showV), semigroup.New(func(a, b int) int { return min(a, b) })).n)
 	// the semigroup combinators accept monoids as well
 	add(sgDualOf(mString).n)
 	add(sgOptionOf(mString).n)
@@ -136,7 +146,7 @@ func lawScenario(r *mc.Registry, name string, nodes []*node) {
 		b := x.Choose(len(n.dom), "b")
 		c := x.Choose(len(n.dom), "c")
 		x.Tag(n.name)
-		law, msg := n.law(a, b, c)
+		law, msg, outcome := n.law(a, b, c) // builds its operands fresh; n.dom is only printed
 		x.Logf("%s on a=%s b=%s c=%s: %s", n.name, n.show(n.dom[a]), n.show(n.dom[b]), n.show(n.dom[c]), orOK(law))
 		if law != "" {
 			cu := n.culprit()
@@ -146,8 +156,7 @@ func lawScenario(r *mc.Registry, name string, nodes []*node) {
 			}
 			x.Fail(cu.head+"/"+law, "%s%s", msg, via)
 		}
-		res := n.show(n.combine(n.combine(n.dom[a], n.dom[b]), n.dom[c]))
-		x.Observe(n.name, res)
+		x.Observe(n.name, outcome)
 		if a != b && b != c && a != c {
 			x.NonTrivial()
 		}
@@ -175,131 +184,219 @@ type foldCase struct {
 	run  func(x *mc.X, maxLen int)
 }
 
-func pickSeq[T any](x *mc.X, maxLen int, alphabet []T) fp.Seq[T] {
-	n := x.Choose(maxLen+1, "length")
-	in := make(fp.Seq[T], n)
-	for i := range in {
-		in[i] = mc.Pick(x, "element", alphabet)
-	}
-	return in
+// foldMonoid is a monoid of the fold scenario with its operand alphabet.
+type foldMonoid[T any] struct {
+	name string
+	m    fp.Monoid[T]
+	// alphabet builds the operands FRESH for every execution; for the slice-like carriers they
+	// are sub-slices with spare capacity of larger live arrays (two of them of one array)
+	alphabet func() []T
+	// tight returns an independent copy without spare capacity: the reference fold runs on these
+	tight func(T) T
+	eqv   func(a, b T) bool
+	show  func(T) string // prints the backing array beyond the length too (snapshot)
+	// node is the catalogue entry of the same instance expression: when a fold goes wrong and the
+	// monoid itself breaks a law on its own domain, the failure is attributed to the monoid
+	node *node
 }
 
-func cp[T any](s fp.Seq[T]) fp.Seq[T] { return append(fp.Seq[T]{}, s...) }
+// failFold reports a fold failure, attributed to the monoid when the monoid itself is at fault.
+func failFold(x *mc.X, n *node, key, format string, args ...any) {
+	if n != nil {
+		if cu := n.culprit(); cu.selfcheck() != "" {
+			x.Fail(cu.head+"/"+cu.selfcheck(), "%s (attributed to the instance %s, which violates %q on its own domain)", fmt.Sprintf(format, args...), cu.name, cu.selfcheck())
+		}
+	}
+	x.Fail(key, format, args...)
+}
 
-// reduceCases: for one monoid, one case per implementation of Reduce (one implementation per
-// execution, so a defect in one of them cannot hide the others).
-func reduceCases[T any](name string, m fp.Monoid[T], alphabet []T, eqv func(a, b T) bool, show func(T) string) []foldCase {
-	type impl struct {
-		name, note string
-		f          func(s fp.Seq[T]) T
+func pickIndices(x *mc.X, maxLen, n int) []int {
+	l := x.Choose(maxLen+1, "length")
+	idx := make([]int, l)
+	for i := range idx {
+		idx[i] = x.Choose(n, "element")
 	}
-	impls := []impl{
-		{"seq.Reduce", "", func(s fp.Seq[T]) T { return seq.Reduce(cp(s), m) }},
-		{"iterator.Reduce", "", func(s fp.Seq[T]) T { return iterator.Reduce(iterator.FromSeq(cp(s)), m) }},
-		{"list.Reduce", "", func(s fp.Seq[T]) T { return list.Reduce(list.FromSeq(cp(s)), m) }},
-		{"list.Reduce", " (lazily produced list)", func(s fp.Seq[T]) T { return list.Reduce(list.Collect(iterator.FromSeq(cp(s))), m) }},
-	}
+	return idx
+}
+
+type foldImpl[T any] struct {
+	name, note string
+	// f folds the elements elems[idx[0]], elems[idx[1]], ... (Reduce: the sequence of those
+	// values; FoldMap: the sequence idx mapped by i -> elems[i])
+	f func(idx []int, elems []T) T
+}
+
+func foldCases[T any](kind string, fm foldMonoid[T], impls []foldImpl[T]) []foldCase {
 	var out []foldCase
 	for _, im := range impls {
 		im := im
-		out = append(out, foldCase{im.name + im.note + " with " + name, func(x *mc.X, maxLen int) {
-			in := pickSeq(x, maxLen, alphabet)
-			want := m.Empty()
-			for _, v := range in {
-				want = m.Combine(want, v)
+		out = append(out, foldCase{im.name + im.note + " with " + fm.name, func(x *mc.X, maxLen int) {
+			elems := fm.alphabet()
+			idx := pickIndices(x, maxLen, len(elems))
+			before := make([]string, len(elems))
+			for i, e := range elems {
+				before[i] = fm.show(e)
 			}
 			var shown []string
-			for _, v := range in {
-				shown = append(shown, show(v))
+			for _, i := range idx {
+				shown = append(shown, before[i])
 			}
-			var got T
-			if p := mc.Catch(func() { got = im.f(in) }); p != nil {
-				x.Fail(im.name+"/panic", "%s([%s], %s)%s panicked: %v", im.name, strings.Join(shown, " "), name, im.note, p)
+			in := "[" + strings.Join(shown, " ") + "]"
+			// reference: the plain loop, on independent operands without spare capacity
+			ref := fm.alphabet()
+			want := fm.m.Empty()
+			for _, i := range idx {
+				want = fm.m.Combine(want, fm.tight(ref[i]))
 			}
-			x.Logf("%s([%s], %s)%s = %s, left fold = %s", im.name, strings.Join(shown, " "), name, im.note, show(got), show(want))
-			if !eqv(got, want) {
-				x.Fail(im.name+"/not-the-left-fold", "%s([%s], %s)%s = %s, the left-to-right fold of Combine from Empty is %s", im.name, strings.Join(shown, " "), name, im.note, show(got), show(want))
+			wantS := fm.show(fm.tight(want))
+			var got, got2 T
+			if p := mc.Catch(func() { got = im.f(idx, elems) }); p != nil {
+				failFold(x, fm.node, im.name+"/panic", "%s(%s, %s)%s panicked: %v", im.name, in, fm.name, im.note, p)
 			}
-			x.Observe(name, show(want))
-			if len(in) >= 2 {
+			gotS, gotOK := fm.show(got), fm.eqv(got, want)
+			// the same fold once more on the same operands; then everything is looked at again
+			if p := mc.Catch(func() { got2 = im.f(idx, elems) }); p != nil {
+				failFold(x, fm.node, im.name+"/panic", "%s(%s, %s)%s panicked when called again: %v", im.name, in, fm.name, im.note, p)
+			}
+			x.Logf("%s(%s, %s)%s = %s, left fold = %s", im.name, in, fm.name, im.note, gotS, wantS)
+			if !gotOK {
+				failFold(x, fm.node, im.name+"/not-the-left-fold", "%s(%s, %s)%s = %s, the left-to-right fold of Combine from Empty is %s", im.name, in, fm.name, im.note, gotS, wantS)
+			}
+			if now := fm.show(got); now != gotS {
+				failFold(x, fm.node, im.name+"/result-changed-later", "%s(%s, %s)%s returned %s, but after the same fold ran again the returned value reads %s", im.name, in, fm.name, im.note, gotS, now)
+			}
+			for i, e := range elems {
+				if now := fm.show(e); now != before[i] {
+					failFold(x, fm.node, im.name+"/operand-modified", "%s(%s, %s)%s: the operand %s reads %s afterwards (the fold wrote into an element of its input or into storage it shares)", im.name, in, fm.name, im.note, before[i], now)
+				}
+			}
+			if !fm.eqv(got2, want) {
+				failFold(x, fm.node, im.name+"/not-the-left-fold", "%s(%s, %s)%s = %s when called a second time on the same operands, the left-to-right fold of Combine from Empty is %s", im.name, in, fm.name, im.note, fm.show(got2), wantS)
+			}
+			x.Observe(fm.name, wantS)
+			if len(idx) >= 2 {
 				x.NonTrivial()
+			}
+			if kind == "Reduce" && len(idx) >= 2 && idx[0] == idx[1] {
+				x.Tag("fold: the same operand (same storage) occurs twice")
 			}
 		}})
 	}
 	return out
 }
 
-// foldMapCases: elements are ints mapped into the monoid by a table.
-func foldMapCases[T any](name string, m fp.Monoid[T], table []T, eqv func(a, b T) bool, show func(T) string) []foldCase {
-	f := func(i int) T { return table[i] }
-	alphabet := make([]int, len(table))
-	for i := range alphabet {
-		alphabet[i] = i
+func reduceCases[T any](fm foldMonoid[T]) []foldCase {
+	build := func(idx []int, elems []T) fp.Seq[T] {
+		in := make(fp.Seq[T], len(idx))
+		for k, i := range idx {
+			in[k] = elems[i]
+		}
+		return in
 	}
-	type impl struct {
-		name, note string
-		f          func(s fp.Seq[int]) T
-	}
-	impls := []impl{
-		{"seq.FoldMap", "", func(s fp.Seq[int]) T { return seq.FoldMap(cp(s), m, f) }},
-		{"list.FoldMap", "", func(s fp.Seq[int]) T { return list.FoldMap(list.FromSeq(cp(s)), m, f) }},
-		{"list.FoldMap", " (lazily produced list)", func(s fp.Seq[int]) T { return list.FoldMap(list.Collect(iterator.FromSeq(cp(s))), m, f) }},
-	}
-	var out []foldCase
-	for _, im := range impls {
-		im := im
-		out = append(out, foldCase{im.name + im.note + " with " + name, func(x *mc.X, maxLen int) {
-			in := pickSeq(x, maxLen, alphabet)
-			want := m.Empty()
-			for _, v := range in {
-				want = m.Combine(want, f(v))
-			}
-			var shown []string
-			for _, v := range in {
-				shown = append(shown, show(f(v)))
-			}
-			var got T
-			if p := mc.Catch(func() { got = im.f(in) }); p != nil {
-				x.Fail(im.name+"/panic", "%s over f(x)=[%s] with %s%s panicked: %v", im.name, strings.Join(shown, " "), name, im.note, p)
-			}
-			x.Logf("%s over f(x)=[%s] with %s%s = %s, left fold = %s", im.name, strings.Join(shown, " "), name, im.note, show(got), show(want))
-			if !eqv(got, want) {
-				x.Fail(im.name+"/not-the-left-fold", "%s over f(x)=[%s] with %s%s = %s, the left-to-right fold of Combine from Empty is %s", im.name, strings.Join(shown, " "), name, im.note, show(got), show(want))
-			}
-			x.Observe(name, show(want))
-			if len(in) >= 2 {
-				x.NonTrivial()
-			}
-		}})
-	}
-	return out
+	m := fm.m
+	return foldCases("Reduce", fm, []foldImpl[T]{
+		{"seq.Reduce", "", func(idx []int, e []T) T { return seq.Reduce(build(idx, e), m) }},
+		{"iterator.Reduce", "", func(idx []int, e []T) T { return iterator.Reduce(iterator.FromSeq(build(idx, e)), m) }},
+		{"list.Reduce", "", func(idx []int, e []T) T { return list.Reduce(list.FromSeq(build(idx, e)), m) }},
+		{"list.Reduce", " (lazily produced list)", func(idx []int, e []T) T { return list.Reduce(list.Collect(iterator.FromSeq(build(idx, e))), m) }},
+	})
 }
 
-func foldScenario(r *mc.Registry, maxLen int) int {
+// FoldMap: the elements are ints, mapped into the monoid by the table elems (so the same operand,
+// with the same storage, is returned for equal elements).
+func foldMapCases[T any](fm foldMonoid[T]) []foldCase {
+	m := fm.m
+	ints := func(idx []int) fp.Seq[int] { return append(fp.Seq[int]{}, idx...) }
+	return foldCases("FoldMap", fm, []foldImpl[T]{
+		{"seq.FoldMap", "", func(idx []int, e []T) T { return seq.FoldMap(ints(idx), m, func(i int) T { return e[i] }) }},
+		{"list.FoldMap", "", func(idx []int, e []T) T {
+			return list.FoldMap(list.FromSeq(ints(idx)), m, func(i int) T { return e[i] })
+		}},
+		{"list.FoldMap", " (lazily produced list)", func(idx []int, e []T) T {
+			return list.FoldMap(list.Collect(iterator.FromSeq(ints(idx))), m, func(i int) T { return e[i] })
+		}},
+	})
+}
+
+func constant[T any](vs ...T) func() []T { return func() []T { return vs } }
+
+func ident[T any](v T) T { return v }
+
+// spareInts: operands with spare capacity, sub-slices of live arrays, fresh on every call
+func spareInts() [][]int {
+	base := []int{1, 2, 3, 4}
+	other := []int{2, 9, 8}
+	return [][]int{base[:1], base[:2], other[:1], nil}
+}
+
+func cloneInts(s []int) []int {
+	if s == nil {
+		return nil
+	}
+	return append(make([]int, 0, len(s)), s...)
+}
+
+func foldScenario(r *mc.Registry, maxLen int, byName map[string]*node) int {
 	eqS := func(a, b string) bool { return a == b }
 	eqI := func(a, b int) bool { return a == b }
 	shS := func(s string) string { return fmt.Sprintf("%q", s) }
 	shI := func(i int) string { return fmt.Sprint(i) }
-	eqSeq := func(a, b fp.Seq[int]) bool { return seqEq(a, b) }
-	shSeq := func(s fp.Seq[int]) string { return fmt.Sprint([]int(s)) }
 	eqO := func(a, b fp.Option[string]) bool {
 		return a.IsDefined() == b.IsDefined() && (!a.IsDefined() || a.Get() == b.Get())
 	}
 	shO := func(o fp.Option[string]) string { return o.String() }
-	optS := monoid.Option(monoid.String)
-	optDom := []fp.Option[string]{fp.None[string](), fp.Some(""), fp.Some("a"), fp.Some("b")}
-	seqDom := []fp.Seq[int]{nil, {1}, {2}, {1, 2}}
+
+	mString := foldMonoid[string]{"monoid.String", monoid.String, constant(strDom...), ident[string], eqS, shS, byName["monoid.String"]}
+	mSum := foldMonoid[int]{"monoid.Sum[int]", monoid.Sum[int](), constant(0, 1, 2, -1), ident[int], eqI, shI, byName["monoid.Sum[int]"]}
+	mProd := foldMonoid[int]{"monoid.Product[int]", monoid.Product[int](), constant(0, 1, 2, -1), ident[int], eqI, shI, byName["monoid.Product[int]"]}
+	mOpt := foldMonoid[fp.Option[string]]{"monoid.Option(monoid.String)", monoid.Option(monoid.String),
+		constant(fp.None[string](), fp.Some(""), fp.Some("a"), fp.Some("b")), ident[fp.Option[string]], eqO, shO, byName["monoid.Option(monoid.String)"]}
+	mSeq := foldMonoid[fp.Seq[int]]{"monoid.MergeSeq[int]", monoid.MergeSeq[int](),
+		func() []fp.Seq[int] {
+			var out []fp.Seq[int]
+			for _, s := range spareInts() {
+				out = append(out, s)
+			}
+			return out
+		},
+		func(s fp.Seq[int]) fp.Seq[int] { return cloneInts(s) },
+		func(a, b fp.Seq[int]) bool { return seqEq(a, b) },
+		func(s fp.Seq[int]) string { return showSlice(s) }, byName["monoid.MergeSeq[int]"]}
+	mSlice := foldMonoid[[]int]{"monoid.MergeSlice[int]", monoid.MergeSlice[int](), spareInts, cloneInts,
+		func(a, b []int) bool { return seqEq(a, b) }, func(s []int) string { return showSlice(s) }, byName["monoid.MergeSlice[int]"]}
+	// Dual puts the ELEMENT on the left of the underlying Combine, so an implementation that
+	// appends in place writes into the elements of the input
+	mDualSlice := foldMonoid[fp.Dual[[]int]]{"monoid.Dual(monoid.MergeSlice[int])", monoid.Dual(monoid.MergeSlice[int]()),
+		func() []fp.Dual[[]int] {
+			var out []fp.Dual[[]int]
+			for _, s := range spareInts() {
+				out = append(out, fp.Dual[[]int]{GetDual: s})
+			}
+			return out
+		},
+		func(d fp.Dual[[]int]) fp.Dual[[]int] { return fp.Dual[[]int]{GetDual: cloneInts(d.GetDual)} },
+		func(a, b fp.Dual[[]int]) bool { return seqEq(a.GetDual, b.GetDual) },
+		func(d fp.Dual[[]int]) string { return "Dual{" + showSlice(d.GetDual) + "}" }, byName["monoid.Dual(monoid.MergeSlice[int])"]}
+	mDualSeq := foldMonoid[fp.Dual[fp.Seq[int]]]{"monoid.Dual(monoid.MergeSeq[int])", monoid.Dual(monoid.MergeSeq[int]()),
+		func() []fp.Dual[fp.Seq[int]] {
+			var out []fp.Dual[fp.Seq[int]]
+			for _, s := range spareInts() {
+				out = append(out, fp.Dual[fp.Seq[int]]{GetDual: s})
+			}
+			return out
+		},
+		func(d fp.Dual[fp.Seq[int]]) fp.Dual[fp.Seq[int]] {
+			return fp.Dual[fp.Seq[int]]{GetDual: cloneInts(d.GetDual)}
+		},
+		func(a, b fp.Dual[fp.Seq[int]]) bool { return seqEq(a.GetDual, b.GetDual) },
+		func(d fp.Dual[fp.Seq[int]]) string { return "Dual{" + showSlice(d.GetDual) + "}" }, byName["monoid.Dual(monoid.MergeSeq[int])"]}
+
 	var cases []foldCase
 	for _, cs := range [][]foldCase{
-		reduceCases("monoid.String", monoid.String, strDom, eqS, shS),
-		reduceCases("monoid.Sum[int]", monoid.Sum[int](), []int{0, 1, 2, -1}, eqI, shI),
-		reduceCases("monoid.Product[int]", monoid.Product[int](), []int{0, 1, 2, -1}, eqI, shI),
-		reduceCases("monoid.MergeSeq[int]", monoid.MergeSeq[int](), seqDom, eqSeq, shSeq),
-		reduceCases("monoid.Option(monoid.String)", optS, optDom, eqO, shO),
-		foldMapCases("monoid.String", monoid.String, strDom, eqS, shS),
-		foldMapCases("monoid.Sum[int]", monoid.Sum[int](), []int{0, 1, 2, -1}, eqI, shI),
-		foldMapCases("monoid.MergeSeq[int]", monoid.MergeSeq[int](), seqDom, eqSeq, shSeq),
-		foldMapCases("monoid.Option(monoid.String)", optS, optDom, eqO, shO),
+		reduceCases(mString), reduceCases(mSum), reduceCases(mProd), reduceCases(mOpt),
+		reduceCases(mSeq), reduceCases(mSlice), reduceCases(mDualSlice), reduceCases(mDualSeq),
+		foldMapCases(mString), foldMapCases(mSum), foldMapCases(mOpt),
+		foldMapCases(mSeq), foldMapCases(mSlice), foldMapCases(mDualSlice), foldMapCases(mDualSeq),
 	} {
 		cases = append(cases, cs...)
 	}
@@ -314,7 +411,7 @@ func foldScenario(r *mc.Registry, maxLen int) int {
 
 func main() {
 	mc.Main("C11", func(r *mc.Registry) {
-		r.Rule = "grammar/arity: execution = (Monoid/Semigroup instance expression, a, b, c) over the whole value domain of the instance's type (all triples); each execution evaluates Combine(Combine(a,b),c), Combine(a,Combine(b,c)), Combine(Empty,a), Combine(a,Empty) on the library's instance and compares with extensional equality (and, for the named instances, with the native operation); non-trivial = three different domain elements; distinct outcome = (instance, value of (a.b).c). fold: execution = (implementation of Reduce|FoldMap, monoid, input sequence) for ALL sequences up to the length bound over 4 values; every implementation (seq, iterator, list from a Seq, lazily produced list) must return the left-to-right loop acc = Combine(acc, x) from Empty; non-trivial = at least two elements"
+		r.Rule = "grammar/arity: execution = (Monoid/Semigroup instance expression, a, b, c) over the whole value domain of the instance's type (all triples); each execution evaluates Combine(Combine(a,b),c), Combine(a,Combine(b,c)), Combine(Empty,a), Combine(a,Empty) on the library's instance and compares with extensional equality (and, for the named instances, with the native operation); non-trivial = three different domain elements; distinct outcome = (instance, value of (a.b).c). fold: execution = (implementation of Reduce|FoldMap, monoid, input sequence) for ALL sequences up to the length bound over 4 values; every implementation (seq, iterator, list from a Seq, lazily produced list) must return the left-to-right loop acc = Combine(acc, x) from Empty (computed on independent operands without spare capacity), run twice on the same operands; non-trivial = at least two elements. In both parts the operands are built fresh inside every execution; the slice-like carriers (MergeSeq, MergeSlice and everything nested over them, Dual of them in the fold) get operands with spare capacity that are sub-slices of larger live arrays; all results are computed first and compared afterwards, every returned value is read again after the later Combine/fold calls (result-changed-later) and every operand including the backing array beyond its length is compared with its snapshot (operand-modified)"
 		r.Assumptions = []string{
 			"float instances: associativity is excluded (property); identity and the meaning of the name are compared with ==, NaN-producing operands are not in the domain",
 			"integer arithmetic is modulo overflow (Go semantics) in the reference as well",
@@ -342,7 +439,16 @@ func main() {
 		if r.Thorough() {
 			maxLen = 7
 		}
-		ncases := foldScenario(r, maxLen)
+		byName := map[string]*node{}
+		for _, n := range grammarNodes {
+			byName[n.name] = n
+		}
+		for _, want := range []string{"monoid.String", "monoid.Sum[int]", "monoid.Product[int]", "monoid.Option(monoid.String)", "monoid.MergeSeq[int]", "monoid.MergeSlice[int]", "monoid.Dual(monoid.MergeSlice[int])", "monoid.Dual(monoid.MergeSeq[int])"} {
+			if byName[want] == nil {
+				panic("fold scenario: no catalogue entry named " + want)
+			}
+		}
+		ncases := foldScenario(r, maxLen, byName)
 
 		heads := map[string]int{}
 		for _, n := range append(append([]*node{}, grammarNodes...), arityNodes...) {
@@ -364,6 +470,7 @@ func main() {
 			"fold_max_length":                maxLen,
 			"fold_cases":                     ncases,
 			"fold_alphabet_size":             4,
+			"slice_operands":                 "nil, base[:1] and base[:2] of one cap-4 array, other[:1] of a cap-3 array, an append-grown [2 1] of cap 4, empty",
 		}
 		r.Extra["uncovered"] = []string{
 			"monoid.Future (not named by the property; needs an executor and is covered by the Future properties)",
